@@ -272,6 +272,10 @@ func (f *fetcher) getFromCacheOrFetch(req *http.Request, key cache.CacheKey, cli
 
 	up := req.Clone(req.Context())
 
+	// What the client declares hop-by-hop concerns its own connection. It is dropped before the stored
+	// validators are added: a client's "Connection: If-None-Match" must not strip them again.
+	removeHopByHopHeaders(up.Header)
+
 	// Cache is stale: set conditional headers if available
 	if cached.Metadata.Object.ETag != "" {
 		up.Header.Set("If-None-Match", cached.Metadata.Object.ETag)
